@@ -20,6 +20,7 @@ func init() {
 		ruleM6(c, "C07.U5")
 		ruleR2(c, "C07.U6")
 		ruleU7(c, "C07.U7")
+		ruleU8(c, "C07.U8")
 	}
 }
 
@@ -738,5 +739,29 @@ func ruleU7(c *Ctx, id string) {
 	for _, k := range keys {
 		a := res[k]
 		R.Check(a.ok, id, k, a.pos, "success after an asynchronous commit only when the journal accepted it", fmt.Sprintf("%d abstract end states, all with the result tested true", a.n), a.why+": the journal refused the transaction (it was undone), yet the client is told its data was written - it is not readable, and a later COMMIT succeeds")
+	}
+}
+
+// ruleU8: the dispatch of WRITE compares the level by name; a client asks for
+// it by number.  The names must have the numbers of RFC 1813 (stable_how:
+// UNSTABLE = 0, DATA_SYNC = 1, FILE_SYNC = 2), or a level asked for on the wire
+// is served - and reported back - as another one.  (C16.X2 compares every
+// constant with the RFC text; this is the part C07 rests on.)
+func ruleU8(c *Ctx, id string) {
+	P, R := c.P, c.R
+	R.Rule(id, "the stability levels have their wire values: UNSTABLE = 0, DATA_SYNC = 1, FILE_SYNC = 2", 3)
+	pk := P.Pkg("nfstypes")
+	if pk == nil {
+		R.Unresolved(id, "nfstypes")
+		return
+	}
+	for name, want := range map[string]int64{"UNSTABLE": 0, "DATA_SYNC": 1, "FILE_SYNC": 2} {
+		o := pk.Types.Scope().Lookup(name)
+		if o == nil {
+			R.Fail(id, "nfstypes."+name, "?", "the constant exists", "no such constant")
+			continue
+		}
+		k, ok := constValInt(o)
+		R.Check(ok && k == want, id, "nfstypes."+name, P.Pos(o.Pos()), fmt.Sprintf("%s = %d as in RFC 1813", name, want), fmt.Sprintf("value %d", k), fmt.Sprintf("%s has the value %d: a write asked for with stable = %d on the wire is committed - and acknowledged - at another level than the client asked for", name, k, want))
 	}
 }
